@@ -1252,4 +1252,94 @@ theorem splitMeta_get (m : AList) (hn : (keys m).Nodup) (incl : Bool) (k : Key) 
     have : isViz Key.label = false := rfl
     simp [this, hv]
 
+theorem nodup_readItems (g : Bool) (items : List MItem) (m m' : AList)
+    (h : readItems g m items = .ok m') (hn : (keys m).Nodup) : (keys m').Nodup := by
+  induction items generalizing m with
+  | nil => simp only [readItems, Except.ok.injEq] at h; subst h; exact hn
+  | cons it r ih =>
+    simp only [readItems] at h
+    cases h1 : readItem g m it with
+    | error e => rw [h1] at h; simp [bind, Except.bind] at h
+    | ok m1 =>
+      rw [h1] at h
+      simp only [bind, Except.bind] at h
+      refine ih m1 h ?_
+      cases it with
+      | empty => simp only [readItem, Except.ok.injEq] at h1; subst h1; exact hn
+      | pair k t =>
+        simp only [readItem] at h1
+        split_ifs at h1
+        · simp only [Except.ok.injEq] at h1; subst h1; exact hn
+        · simp only [Except.ok.injEq] at h1; subst h1; exact nodup_set _ _ _ hn
+
+theorem nodup_lineMeta (qn : String → String) (gm m : AList) (l : RLine)
+    (h : lineMeta qn gm l = .ok m) (hn : (keys gm).Nodup) : (keys m).Nodup := by
+  unfold lineMeta at h
+  cases hr : readItems false gm l.items with
+  | error e => rw [hr] at h; simp [bind, Except.bind] at h
+  | ok m1 =>
+    rw [hr] at h
+    simp only [bind, Except.bind, pure, Except.pure, Except.ok.injEq] at h
+    subst h
+    refine nodup_set _ _ _ ?_
+    unfold normRange
+    have h2 := nodup_set m1 .include (.bool !l.excl) (nodup_readItems _ _ _ _ hr hn)
+    split
+    · exact nodup_set _ _ _ h2
+    · exact h2
+
+theorem nodup_bodyMeta (m : AList) (b : Body) (hn : (keys m).Nodup) : (keys (bodyMeta m b)).Nodup := by
+  cases b <;> simp only [bodyMeta] <;> first | exact hn | exact nodup_set _ _ _ hn
+
+theorem get?_bodyMeta_ne (m : AList) (b : Body) (k : Key) (h1 : k ≠ .symbol) (h2 : k ≠ .text) :
+    (bodyMeta m b).get? k = m.get? k := by
+  cases b <;> simp only [bodyMeta] <;> first | rfl | exact get?_set_ne _ _ (Ne.symm h1) | exact get?_set_ne _ _ (Ne.symm h2)
+
+theorem get?_shapeMeta_ne (q : Quirks) (r : WReg) (k : Key) (h1 : k ≠ .label) (h2 : k ≠ .text) :
+    (shapeMeta q r).get? k = (mergedMeta r).get? k := by
+  unfold shapeMeta
+  split_ifs
+  · rw [get?_set_ne _ _ (Ne.symm h2), get?_erase]; simp [Ne.symm h1]
+  · rw [get?_set_ne _ _ (Ne.symm h2), get?_erase]; simp [Ne.symm h1]
+  · rw [get?_set_ne _ _ (Ne.symm h2)]
+  · rfl
+
+/-! ### the round-trip relation -/
+
+/-- the region is excluded: `region.meta['include'] in (False, '-')`. -/
+def wExcl (r : WReg) : Bool :=
+  match r.mt.get? .include with
+  | some v => v.isExcl
+  | none => false
+
+/-- the region is an annotation: `meta['type'] == 'ann'`. -/
+def wAnn (r : WReg) : Prop := (mergedMeta r).get? .type = some (.str "ann")
+
+instance (r : WReg) : Decidable (wAnn r) := by unfold wAnn; infer_instance
+
+/-- CRTF keys with a scalar value that are written as `key=value` (the reader stores the
+text of the value). -/
+def scalarKey (q : Quirks) : Key → Bool
+  | .frame | .veltype | .restfreq | .color | .font | .symthick | .symsize | .fontsize | .fontstyle
+  | .usetex | .labelpos | .linewidth | .linestyle => true
+  | .labelcolor => !q.dropLabelcolor
+  | _ => false
+
+def isScalar : MVal → Bool
+  | .str _ | .int _ | .bool _ => true
+  | _ => false
+
+/-- what the property promises for one region `r` and the region `x` read back. -/
+structure RT (q : Quirks) (o : Opts) (r : WReg) (x : RReg) : Prop where
+  kind : x.kind = r.kind
+  geom : GeomClose o.prec r.kind r.pts r.sizes r.angle
+           (x.pts.map fun p => (p.1.v, p.2.v)) (x.sizes.map (·.v)) (x.angle.map (·.v))
+  incl : x.mt.get? .include = some (.bool (!wExcl r))
+  ann : x.mt.get? .type = some (.str (if wAnn r then "ann" else "reg"))
+  scalar : ∀ k v, scalarKey q k = true → (mergedMeta r).get? k = some v → isScalar v = true → v.pyStr ≠ "" →
+             (if isViz k then x.vis else x.mt).get? k = some (.str v.pyStr)
+  label : r.kind ≠ .text → ∀ v, (mergedMeta r).get? .label = some v → isScalar v = true → v.pyStr ≠ "" →
+             x.mt.get? .label = some (.str v.pyStr)
+  text : r.kind = .text → ∀ v, (shapeMeta q r).get? .text = some v → x.text = some v.pyStr
+
 end RegionsVerif.Props.C11
